@@ -8,8 +8,8 @@ On break: harness `oracle` evaluates the property's clauses directly on the real
 """
 import os
 
-THEOREMS = ["IstioModel.C13.Theorems", "IstioModel.C13.ConcTheorems"]
-STREAMS = ("index", "sched")
+THEOREMS = ["IstioModel.C13.Theorems", "IstioModel.C13.ConcTheorems", "IstioModel.C13.ClaTheorems"]
+STREAMS = ("index", "sched", "cla")
 
 
 def case_of(ctx, ops, i):
@@ -74,6 +74,8 @@ def run(ctx):
     ctx.diff_stream("index", ctx.n(1500, 30000), oracle=oracle)
     # real goroutines parked / released at the verif gates in scripted orders vs the lock-region model
     ctx.diff_stream("sched", ctx.n(1500, 30000), oracle=oracle)
+    # index operations + membership queries through the real endpoint builder of a FakeDiscoveryServer
+    ctx.diff_stream("cla", ctx.n(1500, 30000), oracle=oracle)
     # the oracle also runs on the corpus of every stream (the F4 witnesses live there)
     cdir = os.path.join(os.path.dirname(os.path.dirname(os.path.abspath(__file__))), "harness", "corpus", ctx.pid)
     extra = []
